@@ -8,6 +8,7 @@ The theorems below are the per-field building blocks; the whole-record statement
 every decoded record type) is tied by the correspondence runs on kernel-rendered records.
 -/
 import LA.Proofs.Auparse
+import LA.Proofs.StateFacts
 
 namespace LA.Auparse
 open LA
@@ -665,3 +666,9 @@ example : InDomain (ofString "/usr/bin/bash") ∧ (ofString "/usr/bin/bash").all
   · intro b hb; simp [ofString] at hb; subst hb; decide
 
 end LA.Auparse
+
+/-! ### the code keeps nothing between calls that the model does not have -/
+
+/-- Outside `init`, no function of package auparse writes a package-level variable, takes the address of one or calls a
+sync/atomic method on one (regenerated list, see LA.Proofs.StateFacts): the parser is a function of its argument. -/
+theorem C12_parser_keeps_nothing_between_calls : LA.StateFacts.ofPkg "auparse" = [] := by decide
